@@ -78,6 +78,7 @@ template <std::size_t N> struct Obj { char c[N]; };
 struct alignas(32) Obj32 { char c[64]; };
 struct Base { virtual ~Base() {} };
 struct BigDerived : Base { char payload[70000]; };
+struct alignas(64) WideDerived : Base { char payload[40]; };   // alignof(Derived) > alignof(Base): the polymorphic deleter must remember it
 
 template <class T, class A> static void std_op(A& leaf_like, std::size_t n)
 {
@@ -132,6 +133,7 @@ static int run_fwd()
             { auto p = allocate_unique<Obj<24>>(l0); }
             { auto p = allocate_unique<Obj<24>[]>(l0, a ? a : 1); }
             { unique_base_ptr<Base, log_leaf> q(allocate_unique<BigDerived>(l0)); }
+            { unique_base_ptr<Base, log_leaf> q(allocate_unique<WideDerived>(l0)); }
             { auto sp = allocate_shared<Obj<40>>(l0); }
             // a constructor that throws although the type's default constructor cannot: the node is released all the same
             { struct Picky { char c[24]; Picky() noexcept {} explicit Picky(int) { throw 7; } };
